@@ -3,6 +3,9 @@ from __future__ import annotations
 
 from hypothesis import strategies as st
 
+import reactivex
+from reactivex import operators as ops
+
 from vlib.core import FAIL, OK, SKIP, Check
 from vlib.pipes import OPS, op_names, pipelines
 from vlib.relsub import INF, Diverged, DProbe, OBuilder, TLab, all_inners, release_deadline
@@ -52,16 +55,19 @@ def _src_done_by(s, a, T):
     return due <= T
 
 
-def run_pipeline(case, lab=None):
-    lab = lab or TLab()
-    B = OBuilder(lab)
-    o = B.build(case["pipe"])
+def run_pipeline(case, make=None):
+    lab = TLab()
+    if make is None:
+        o = OBuilder(lab).build(case["pipe"])
+    else:
+        o = make(lab)
     p = DProbe(lab, "p", inner=case["inner"])
     lab.probes.append(p)
     try:
         p.subscribe(o)
     except (RecursionError, Diverged):
         lab.inconclusive = "recursion"
+    if lab.inconclusive:
         return lab, p
     lab.run()
     if lab.inconclusive is None and recursion_seen(lab):
@@ -80,8 +86,10 @@ def recursion_seen(lab):
 
 
 def _run(case):
-    pc = case["pipe"]
-    lab, p = run_pipeline(case)
+    return judge(case, case["pipe"], *run_pipeline(case))
+
+
+def judge(case, pc, lab, p):
     if lab.inconclusive:
         return SKIP(lab.inconclusive)
     if lab.escaped is not None:
@@ -135,7 +143,7 @@ def _run(case):
     if bad is not None:
         s, i, a, b, t0 = bad
         owner = getattr(s, "owner", -1)
-        culprit = "root:" + pc["root"]["f"] if owner < 0 else pc["ops"][owner][0]
+        culprit = (pc["root"]["f"] if pc["root"]["f"] != "single" else "source") if owner < 0 else pc["ops"][owner][0]
         kind = "never-closed" if b is None else "closed-late"
         return FAIL(
             f"{kind}|{culprit}",
@@ -239,10 +247,84 @@ def _fit(ops_):
     return out
 
 
+# ---------------------------------------------------------------------------------------
+# group_by_until whose duration observable is derived from the group it is given (the common idiom
+# lambda g: g.pipe(skip(n)) ...), ended from downstream while earlier groups' durations are pending.
+# The shared grammar's group_by_until entry only uses durations independent of the group.
+
+SELF_DURATIONS = ["skip", "skip", "ignore_elements", "skip_merge_aux", "skip_delay", "take_last"]
+
+
+def build_gbu_self(B, a):
+    """Operator function for ['group_by_until_self', a]; registers as one operator of builder B."""
+    B._owner = B.opi
+    B.cur = "group_by_until_self"
+    owner = B._owner
+    key = B.key("key_mapper", a["k"])
+    f, n = a["f"], a["n"]
+
+    def dur(g):
+        if f == "skip":
+            return g.pipe(ops.skip(n))
+        if f == "ignore_elements":
+            return g.pipe(ops.ignore_elements())
+        if f == "skip_merge_aux":
+            return reactivex.merge(g.pipe(ops.skip(n)), B._mk(a["aux"], owner, True))
+        if f == "skip_delay":
+            return g.pipe(ops.skip(n), ops.delay(B.lab.rel(1)))
+        if f == "take_last":
+            return g.pipe(ops.take_last(1))
+        raise AssertionError(f)
+
+    o = ops.group_by_until(key, B.mapper("element_mapper", "g") if a["e"] else None, B.fn("duration_mapper", dur))
+    B.opi += 1
+    return o
+
+
+def make_gbu(case):
+    pc = case["pipe"]
+
+    def make(lab):
+        B = OBuilder(lab)
+        o = B.build_root(pc["root"])
+        for name, args in pc["ops"]:
+            o = (build_gbu_self(B, args) if name == "group_by_until_self" else B.build_op(name, args))(o)
+        return o
+
+    return make
+
+
+def _run_gbu(case):
+    return judge(case, case["pipe"], *run_pipeline(case, make_gbu(case)))
+
+
+def cases_gbu():
+    from vlib.lab import timelines
+    from vlib.pipes import s_src
+
+    src = st.fixed_dictionaries({"kind": st.sampled_from(["cold", "hot", "cold"]), "tl": timelines(max_len=7, max_dt=2, min_len=2, terminal=(None, None, "C", "E"))})
+    g = st.fixed_dictionaries({"k": st.integers(2, 4), "e": st.booleans(), "f": st.sampled_from(SELF_DURATIONS), "n": st.integers(0, 3), "aux": s_src(("cold",), max_len=2)})
+    enders = st.one_of(
+        st.integers(1, 4).map(lambda n: [["take", {"n": n}]]),
+        st.integers(1, 4).map(lambda n: [["take", {"n": n}], ["observe_on", {}]]),
+        s_src(("cold", "hot")).map(lambda sp: [["take_until", {"o": sp}]]),
+        st.integers(1, 6).map(lambda d: [["take_with_time", {"d": d}]]),
+        st.integers(0, 3).map(lambda n: [["element_at_or_default", {"n": n, "v": "none"}]]),
+        st.just([]),
+    )
+    pol = st.fixed_dictionaries(
+        {"mode": st.sampled_from(["now", "late", "never"]), "d": st.integers(0, 2), "unsub": st.one_of(st.none(), st.integers(0, 4), st.integers(0, 4))}
+    )
+    return st.fixed_dictionaries({"src": src, "g": g, "end": enders, "inner": pol}).map(
+        lambda c: {"pipe": {"root": {"f": "single", "srcs": [c["src"]]}, "ops": [["group_by_until_self", c["g"]]] + c["end"]}, "inner": c["inner"]}
+    )
+
+
 def checks(tier):
     q = tier == "quick"
     return [
-        Check("pipelines", _run, strategy=cases(4 if q else 6), examples={"quick": 2400, "thorough": 16 * 30000}, shards={"quick": 4, "thorough": 16}),
-        Check("inners", _run, strategy=cases_inner(4 if q else 6), examples={"quick": 2400, "thorough": 16 * 30000}, shards={"quick": 4, "thorough": 16}),
-        Check("enders", _run, strategy=cases_forced(3 if q else 5), examples={"quick": 1200, "thorough": 16 * 15000}, shards={"quick": 4, "thorough": 16}),
+        Check("pipelines", _run, strategy=cases(4 if q else 6), examples={"quick": 2000, "thorough": 16 * 20000}, shards={"quick": 4, "thorough": 16}),
+        Check("inners", _run, strategy=cases_inner(4 if q else 6), examples={"quick": 2000, "thorough": 16 * 20000}, shards={"quick": 4, "thorough": 16}),
+        Check("gbu_self", _run_gbu, strategy=cases_gbu(), examples={"quick": 600, "thorough": 16 * 5000}, shards={"quick": 4, "thorough": 16}),
+        Check("enders", _run, strategy=cases_forced(3 if q else 5), examples={"quick": 1000, "thorough": 16 * 10000}, shards={"quick": 4, "thorough": 16}),
     ]
